@@ -114,13 +114,8 @@ func fuzzSeeds(f *testing.F) {
 		z := make([]byte, n) // all-zero tape: literals of byte 0 and minimal choices
 		f.Add(z)
 	}
-	// saved corpus of earlier campaigns
-	files, _ := filepath.Glob(filepath.Join(ev.Root(), "corpus", "fuzz", f.Name(), "*"))
-	for _, fn := range files {
-		if b, err := os.ReadFile(fn); err == nil {
-			f.Add(b)
-		}
-	}
+	// inputs kept from earlier campaigns live in testdata/fuzz/<target>/ and
+	// are loaded by the engine itself
 }
 
 // FuzzC03: generator-built .xz streams, decoded by the library under two
